@@ -420,6 +420,7 @@ func c11ReleaseAtClose(c *core.Ctx, R string) {
 	if sd := c.Fn(R, "transports.(*polling).send"); sd != nil {
 		g := sd.Graph()
 		info := sd.Info()
+		taken := false
 		set := nilGuard(true, func(x *core.Unit, e ast.Expr) bool {
 			d, ok := x.SingleDef(e)
 			if !ok {
@@ -430,6 +431,10 @@ func c11ReleaseAtClose(c *core.Ctx, R string) {
 				return false
 			}
 			se, isS := ce.Fun.(*ast.SelectorExpr)
+			if isS && se.Sel.Name == "Swap" && len(ce.Args) == 1 && core.IsNil(x.Info(), ce.Args[0]) && fieldOf(x.Info(), se.X) == "polling.shouldClose" {
+				taken = true // Swap(nil): taking the closure is the reset (one step, so Discard cannot run it a second time — fix f776a3e)
+				return true
+			}
 			return isS && se.Sel.Name == "Load" && fieldOf(x.Info(), se.X) == "polling.shouldClose"
 		})
 		app, run, reset := false, false, false
@@ -453,6 +458,7 @@ func c11ReleaseAtClose(c *core.Ctx, R string) {
 				reset = true
 			}
 		}
+		reset = reset || taken
 		c.Check(R, "transports.(*polling).send/shouldClose→append(CLOSE),run,reset", sd.Pos(), app && run && reset, keyf("append CLOSE=%v run closure=%v reset=%v", app, run, reset))
 	}
 	if dw := c.Fn(R, "transports.(*polling).DoWrite"); dw != nil {
